@@ -8,11 +8,66 @@ def fuel : Nat := 1000000
 def catText : Cat → String
   | .frame => "frame" | .growth => "growth" | .rq => "ready-queue-node" | .other => "other"
 
+def kindText : Kind → String
+  | .v => "v" | .e => "e" | .d => "d"
+
+def actText : Act → String
+  | .await i => s!"a{i}"
+  | .res i k => s!"r{i}{kindText k}"
+  | .resAw i k => s!"R{i}{kindText k}"
+  | .lock m => s!"l{m}"
+  | .unlock m => s!"u{m}"
+  | .unlockAw m => s!"U{m}"
+  | .park => "p"
+  | .pause => "y"
+  | .gstep g => s!"g{g}"
+  | .gstepAw g => s!"G{g}"
+
+def labelText : Label → String
+  | .did a => actText a
+  | .stepped a (some v) => s!"{actText a}={v}"
+  | .stepped a none => s!"{actText a}=done"
+  | .nogen a => s!"{actText a}=none"
+  | .fin => "end"
+
 def tokText : Tok → String
-  | .act j t => s!"c{j}:{t}"
+  | .act j l => s!"c{j}:{labelText l}"
   | .cb i => s!"cb{i}"
   | .alloc c n _ => s!"a:{catText c}+{n}"
   | .free c n => s!"f:{catText c}-{n}"
+
+def outcomeText : Outcome → String
+  | .none => "pending"
+  | .value n => s!"v:{n}"
+  | .exc => "exc"
+  | .canceled => "canceled"
+
+/-- the head word(s) of the output line of an operation, computed on the state *before* the operation -/
+def headOf (s : State) : Op → String
+  | .fut i => if (s.futs i).existed then "skip" else "ok"
+  | .res i k =>
+      if (s.futs i).existed then s!"{boolStr (!(s.futs i).claimed)} n={(resolve s i k).tmp.handles.length}" else "skip"
+  | .resX i => if (s.futs i).existed then s!"{boolStr (!(s.futs i).claimed)} n=-" else "skip"
+  | .cb i => if (s.futs i).alive then (if (s.futs i).ready then "ready" else "sub") else "skip"
+  | .bs i => if (s.futs i).alive then (if (s.futs i).ready then "ready" else "sub") else "skip"
+  | .bw i => if (s.futs i).alive && (s.futs i).ready then outcomeText (s.futs i).outcome else "skip"
+  | .del i => if (s.futs i).alive && (s.futs i).ready then "ok" else "skip"
+  | .co j _ bind _ =>
+      if (s.cos j).st = .unborn && bindOk s bind then
+        (match bind with
+         | some i => if (s.futs i).claimed then "unclaimed" else "ok"
+         | none => "ok")
+      else "skip"
+  | .tl m => if (s.mxs m).owner = .main then "skip" else boolStr ((s.mxs m).owner = .free)
+  | .ul m => if (s.mxs m).owner = .main then s!"n={(handOver s m none).tmp.handles.length}" else "skip"
+  | .sa k j => if (s.cos j).st = .parked then s!"n={(s.sps k).handles.length + 1}" else "skip"
+  | .sp k => if (s.sps k).handles.isEmpty then "none" else "ok"
+  | .sf k => s!"n={(s.sps k).handles.length}"
+  | .gen g _ _ => if (s.gens g).exist then "skip" else "ok"
+  | .gs g _ =>
+      if (s.gens g).exist then (match (genStep (s.gens g)).2 with | some v => s!"v:{v}" | none => "done") else "skip"
+  | .gd g => if (s.gens g).exist then "ok" else "skip"
+  | .fin => "left"
 
 def parseKind : Char → Option Kind
   | 'v' => some .v | 'e' => some .e | 'd' => some .d | _ => none
@@ -90,7 +145,7 @@ def doOp (s : State) (op : Op) : State × String :=
   let toks := ((s'.out.take (s'.out.length - n0)).reverse).map tokText
   let head := match op with
     | .fin => s!"left={leftOf s'}"
-    | _ => headOf fuel s op
+    | _ => headOf s op
   (s', withEvents head toks)
 
 partial def loop (lines : Array String) (i : Nat) (st : Option State) : IO Unit := do
